@@ -18,6 +18,11 @@ EXPLANATION = ('PORT-TYPECHECK(K2), TAB-OPC, LW-SIB, SPLIT-SIB, RCP-NOOP, CBR-BI
          ' A64-MEM-HSEM, LW-VALUE.'
          ' A64-CBR-HSEM.')
 
+CLAIM += (' Hand-written runtime (jit_compiler_a64_static.S, assembled for the target and read back from the disassembly): every routine called while a program or the dataset loop runs leaves every register that is read afterwards unchanged - the callee is followed instruction by instruction with its frame slots, the registers generated SuperscalarHash code can write are added, and the result is compared with backward liveness in which generated code reads IntRegMap and the IMUL_RCP literal registers (A64-RT-PRESERVE); literal register i of h_IMUL_RCP is the register the prologue loads from literal slot i and no piece of the loop changes it (A64-RCPLIT); prologue constants are never reloaded from another entry (A64-RT-CONST); the light-mode dataset offset patched into the template is the configured one (A64-DSOFF).')
+EXPLANATION += ' A64-RT-PRESERVE (18 call sites), A64-RCPLIT (12 literal registers), A64-RT-CONST, A64-DSOFF.'
+
+TECHNIQUE += '; def-use, backward liveness and a frame-slot value-preservation analysis over the disassembly of the hand-written runtime assembled for the target'
+
 
 def run(ctx, R):
     FI = astq.Facts(ctx, 'K0')
